@@ -79,6 +79,11 @@ func (c *Config) ConstExpr(name string) {
 		c.Error(fmt.Errorf("no environment for const expression: %v", name))
 		return
 	}
+	defer func() {
+		if r := recover(); r != nil {
+			c.Error(fmt.Errorf("const expression %q: %v", name, r))
+		}
+	}()
 	c.ConstExprFns[name] = vm.FetchFn(c.Env, name)
 }
 
